@@ -138,7 +138,7 @@ func (p *wat2X64Worker) buildTable(w io.Writer) error {
 				for j, fnIdxOrName := range elem.Values {
 					fnIndex := p.findFuncIndex(fnIdxOrName)
 					p.gasCommentInFunc(w, fmt.Sprintf("elem[%d]: table[%d+%d] = %s", i, elem.Offset, j, fnIdxOrName))
-					if off := int(elem.Offset) + j*IntSize; off != 0 {
+					if off := (int(elem.Offset) + j) * IntSize; off != 0 {
 						fmt.Fprintf(w, "    mov qword ptr [rax+%d], %d\n", off, fnIndex)
 					} else {
 						fmt.Fprintf(w, "    mov qword ptr [rax], %d\n", fnIndex)
